@@ -512,6 +512,28 @@ def check_memo_functions(ctx, functions, rule='A2p'):
                         ctx.used_exception('A2p', f'context:{p}', CONTEXT_PARAMS[p])
                     else:
                         missing.append(p)
+                # a key the function itself tests against None is a sentinel on some paths ("no index known"): all
+                # calls on which it is None would share one entry, whatever they computed
+                knames = [x.id for x in ast.walk(t.slice) if isinstance(x, ast.Name)]
+                for kn in knames:
+                    tested = any(isinstance(c, ast.Compare) and len(c.ops) == 1 and
+                                 isinstance(c.ops[0], (ast.Is, ast.IsNot)) and isinstance(c.left, ast.Name) and
+                                 c.left.id == kn and isinstance(c.comparators[0], ast.Constant) and
+                                 c.comparators[0].value is None for c in walk_fn(fn))
+                    if not tested:
+                        continue
+                    from . import guards as _g
+                    n += 1
+                    _g.check_guarded(
+                        ctx, rule, fn, [s],
+                        lambda atom, truth, kn=kn: isinstance(atom, ast.Compare) and len(atom.ops) == 1 and
+                        isinstance(atom.left, ast.Name) and atom.left.id == kn and
+                        isinstance(atom.comparators[0], ast.Constant) and atom.comparators[0].value is None and
+                        ((isinstance(atom.ops[0], ast.IsNot) and truth is True) or
+                         (isinstance(atom.ops[0], ast.Is) and truth is False)),
+                        [kn], f'{cont}[{key}]:key-not-none:{kn}',
+                        f'`{kn}` can be None in {fn.qualname} (the function tests it): an entry of `{cont}` is stored '
+                        f'under it only where it is known not to be None')
                 n += 1
                 ctx.touch(fn)
                 ctx.ob(rule, fkey(fn, rule, f'{cont}[{key}]'), not missing, f'{fn.module.relpath}:{s.lineno}',
